@@ -72,7 +72,7 @@ def limit_witness():
     n = 0
     for N in range(0, 4):
         for total in range(0, 8):
-            for lines in itertools.product(["", "x"], repeat=total):
+            for lines in itertools.product(["", "x", " "], repeat=min(total, 6)):  # whitespace-only lines are NOT empty
                 n += 1
                 pp = LimitEmptyLines(N)
                 run = 0
@@ -222,6 +222,43 @@ def main():
                "TrimTrailingWhitespace.__call__": trim_witness,
                "LimitEmptyLines.__call__": limit_witness}
     driver.verify_contracts(run, eng, contracts, witness=witness)
+    # initial state of the limiter (the __call__ contract starts from the representation invariant): the real __init__
+    # sets the run-length counter to 0 and stores the limit
+    try:
+        f = epy.fields_from_init(eng, "nunavut/_postprocessors.py:LimitEmptyLines.__init__", "LimitEmptyLines", {"max_empty_lines": epy.SInt})
+        cnt, lim = f.get("_empty_line_count"), f.get("_max_empty_lines")
+        ok = cnt is not None and getattr(cnt, "t", None) == "0" and lim is not None and "max_empty_lines" in getattr(lim, "t", "")
+        detail = f"_empty_line_count := {getattr(cnt, 't', None)}, _max_empty_lines := {getattr(lim, 't', None)}"
+    except (epy.OutOfSubset, epy.BindingError) as ex:
+        ok, detail = None, str(ex)
+    name = "LimitEmptyLines.__init__#post:counter-starts-at-zero-and-the-limit-is-stored"
+    run.add_check(name, ok, "E-PY symbolic execution of the real __init__", 0, detail)
+    run.add_function("nunavut/_postprocessors.py:LimitEmptyLines.__init__")
+    if ok is False:
+        w = limit_witness()
+        run.fail(report.Failure(name, "post", f"LimitEmptyLines.__init__: {detail}" + (f"; real code: {w['input']}: {w['why']}" if w else ""), {"witness": w}, bool(w)))
+    # the support resource is read and the copy written as UTF-8, nothing else (the ghost text of the contract IS the file's
+    # text: a codec that drops or adds characters -- e.g. utf-8-sig's byte-order mark -- would break that identification)
+    import ast as _ast
+    from vk import efx as _efx
+    ix = _efx.PyIndex(SRC)
+    q = "nunavut.jinja:SupportGenerator._copy_header_using_line_pps"
+    if q in ix.fns:
+        opens = [n for n in _ast.walk(ix.fns[q].node) if isinstance(n, _ast.Call) and _ast.unparse(n.func) == "open"]
+        encs = [next((_ast.unparse(k.value) for k in n.keywords if k.arg == "encoding"), None) for n in opens]
+        ok = len(opens) == 2 and all(e == "'utf-8'" for e in encs)
+        name = "SupportGenerator._copy_header_using_line_pps#both-files-opened-as-plain-utf-8"
+        run.add_check(name, ok, "E-FX argument check (AST)", 0, f"encodings {encs}")
+        if not ok:
+            run.fail(report.Failure(name, "post", f"_copy_header_using_line_pps opens its files with encodings {encs}: the text copied is no longer the text of the resource", {}, False))
+    else:
+        run.undecide(f"binding failure: {q}")
+    for name, fn in [(n_, f_) for n_, f_ in witness.items() if n_ in ("LimitEmptyLines.__call__", "TrimTrailingWhitespace.__call__") and args.tier != "thorough"]:
+        w = fn()
+        run.add_bounded(f"{name}: native evaluation of the top-level contract on the real function (CPython cross-check)",
+                        "small line sequences, see props/c15.py", getattr(fn, "evaluations", 0), w is None, str(w or ""))
+        if w is not None and not any(name.split(".")[0] in f_.obligation for f_ in run.failures):
+            run.fail(report.Failure(f"{name}#native-contract-evaluation", "post", f"real code: {w['input']}: {w['why']}", {"witness": w}, True))
     if args.tier == "thorough":
         for name, fn in witness.items():
             w = fn()
